@@ -500,7 +500,26 @@ func (fr *Frame) enterLoop(li *loopInfo, preds []*ssa.BasicBlock, conds []string
 	if all {
 		ex.havocAll(fr.cur)
 	} else {
+		objMods := ex.mods.LoopObjMods(fr, li, mods)
 		for _, m := range mods {
+			if m == "alloc" {
+				old := ex.get(fr.cur, "alloc")
+				n := ex.havoc(fr.cur, "alloc")
+				vc.assume("(>= " + n + " " + old + ")")
+				continue
+			}
+			om := objMods[m]
+			s := ex.svSort(m)
+			if om != nil && !om.whole && len(om.objs) > 0 && s.K == KArr {
+				// only the listed (loop-invariant) objects are written: quantifier-free frame
+				t := ex.get(fr.cur, m)
+				for k, o := range om.objs {
+					fv := vc.fresh(fmt.Sprintf("%s_loop%d_%d", m, li.ordinal, k), s.Elem)
+					t = "(store " + t + " " + o + " " + fv + ")"
+				}
+				ex.set(fr.cur, m, t)
+				continue
+			}
 			ex.havoc(fr.cur, m)
 		}
 	}
